@@ -23,7 +23,7 @@ pub enum Case {
     /// snapshot/restore the low-level decoder after the calls selected by `every`/`phase`
     Core { input: AnyInput, sched: DecSched, ring: Option<(u8, u32, u64)>, snap: Snap, every: u8, phase: u8 },
     /// stop at every block boundary, rebuild from the boundary record + last 32 KiB
-    Boundary { src: Src, sched: DecSched, keep_zlib_fields: bool, scrub: bool },
+    Boundary { src: Src, sched: DecSched, keep_zlib_fields: bool, scrub: bool, ring: Option<(u8, u32)> },
     /// InflateState::clone between calls
     Wrapper { src: Src, chunks: Vec<u32>, outs: Vec<u32>, every: u8 },
 }
@@ -53,7 +53,8 @@ impl Prop for P {
         let input = prop_oneof![3 => valid_src(false).prop_map(|src| AnyInput { src, muts: vec![] }), 1 => any_input()];
         let core = (input, dec_sched(), ring, prop_oneof![Just(Snap::Clone), Just(Snap::Rmp), Just(Snap::Json)], 1u8..=4, 0u8..4).prop_map(|(input, sched, ring, snap, every, phase)| Case::Core { input, sched, ring, snap, every, phase });
         let bsrc = prop_oneof![4 => crate::gen::stream::stream(8, 30, 400, None, 3).prop_map(Src::Grammar), 2 => valid_src(false), 1 => valid_src(true)];
-        let bnd = (bsrc, dec_sched(), any::<bool>(), any::<bool>()).prop_map(|(src, sched, keep_zlib_fields, scrub)| Case::Boundary { src, sched, keep_zlib_fields, scrub });
+        let bring = prop_oneof![2 => Just(None), 1 => (15u8..=16, any::<u32>()).prop_map(Some)];
+        let bnd = (bsrc, dec_sched(), any::<bool>(), any::<bool>(), bring).prop_map(|(src, sched, keep_zlib_fields, scrub, ring)| Case::Boundary { src, sched, keep_zlib_fields, scrub, ring });
         let wr = (valid_src(false), proptest::collection::vec(prop_oneof![0u32..=3, 1u32..=60, 1u32..=3000], 0..10), proptest::collection::vec(prop_oneof![1u32..=3, 1u32..=200, Just(1u32 << 16)], 1..4), 1u8..=3).prop_map(|(src, chunks, outs, every)| Case::Wrapper { src, chunks, outs, every });
         prop_oneof![4 => core, 4 => bnd, 1 => wr].boxed()
     }
@@ -113,7 +114,7 @@ impl Prop for P {
                 cx.class(&format!("snap:{snap:?}"));
                 Ok(())
             }
-            Case::Boundary { src, sched, keep_zlib_fields, scrub } => {
+            Case::Boundary { src, sched, keep_zlib_fields, scrub, ring } => {
                 let Some(t) = realize(src, cx) else { return Ok(()) };
                 if !t.valid() {
                     return Ok(());
@@ -127,7 +128,12 @@ impl Prop for P {
                 let mut d = DecompressorOxide::new();
                 let mut nb = 0usize;
                 let mut interesting = false;
-                let r = drive(&mut d, data, &DriveOpts { flags, mode: BufMode::Flat { cap: plain.len() + 1 }, sched, canary: false, max_calls: None, announce: true, flat_start: 0, probe_full_ring: false }, |d, info| {
+                // flat buffer, or a wrapping ring (then the ring itself is the preceding 32 KiB of output)
+                let bmode = match ring {
+                    None => BufMode::Flat { cap: plain.len() + 1 },
+                    Some((bits, start)) => BufMode::Ring { bits: *bits, start: *start, fill_seed: 5 },
+                };
+                let r = drive(&mut d, data, &DriveOpts { flags, mode: bmode, sched, canary: false, max_calls: None, announce: true, flat_start: 0, probe_full_ring: false }, |d, info| {
                     if info.status != TINFLStatus::BlockBoundary {
                         if d.block_boundary_state().is_some() && !matches!(info.status, TINFLStatus::NeedsMoreInput | TINFLStatus::HasMoreOutput) {
                             // (state ReadBlockHeader can also be observed when input ran out exactly there; allowed)
@@ -161,7 +167,7 @@ impl Prop for P {
                     // rebuild from the documented record only
                     let rec = if t.zlib || *keep_zlib_fields { bs.clone() } else { BlockBoundaryState { num_bits: bs.num_bits, bit_buf: bs.bit_buf, ..Default::default() } };
                     *d = DecompressorOxide::from_block_boundary_state(&rec);
-                    if *scrub {
+                    if *scrub && info.flat {
                         // "a new output buffer holding only the last 32 KiB"
                         let keep_from = info.out_pos_after.saturating_sub(32768);
                         for x in info.buf[..keep_from].iter_mut() {
